@@ -304,7 +304,7 @@ inline const std::vector<std::string>& allFeatures() {
         "lre", "message", "modes", "sort2", "comment-pi", "exslt-set", "exslt-math", "exslt-str", "genid", "lang", "sysprop", "param", "ifbool",
         "union", "preds", "valnum", "apply-imports", "text-nodes", "ns-axis", "doctype-node", "attr-nodes", "number-value", "bigfmt", "xalan-ext", "docfn", "avt-ns", "extfn", "paramuse", "gate", "num-gate", "sortlang", "num-value", "lazyvar", "manyrtf", "deeprec", "padsupp", "top-nodes", "doe", "sort-gate", "bignum-alpha",
         "num-punct", "num-exotic", "ext-evaluate", "rtf-key", "key-prefixed", "key-variant",
-        "nsalias", "withparam", "fmtnum-pat", "doc2", "unparsed-entity", "nsfix", "numconv", "keynodeset", "randexpr", "manydf", "axes-matrix", "num-groupsep", "sort-manylang", "attr-replace", "deep-rtf", "many-nodesets", "copy-ns-attr", "attr-expanded"
+        "nsalias", "withparam", "fmtnum-pat", "doc2", "unparsed-entity", "nsfix", "numconv", "keynodeset", "randexpr", "manydf", "axes-matrix", "num-groupsep", "sort-manylang", "attr-replace", "deep-rtf", "many-nodesets", "copy-ns-attr", "attr-expanded", "excl-attr"
     };
     return f;
 }
@@ -373,7 +373,7 @@ struct SSGen {
         if (on("param")) { perNode += "<xsl:if test=\"not(ancestor::*)\">" + o("param", vo("$P1") + "|" + vo("$P2 + 1") + "|" + vo("string-length($P1)")) + "</xsl:if>"; }
         if (on("extfn")) perNode += "<xsl:if test=\"function-available('ext:sq')\">" + o("extfn", vo("ext:sq(@v)") + "," + vo("ext:sq(count(*))")) + "</xsl:if>";
         if (on("paramuse")) rootBody += "<o f=\"param-node\" n=\"/\">" + vo("count($N)") + "," + vo("name($N)") + "," + vo("string-length($N)") + "," + vo("translate(normalize-space($N), ' ', '_')") + "," + vo("count($N//text())") + "</o>";
-        if (on("paramuse")) perNode += o("paramuse", vo("concat($P1, '/', @k)") + "|" + vo("$P2 * 2") + "|" + vo("boolean($P1)"));
+        if (on("paramuse")) perNode += o("paramuse", vo("concat($P1, '/', @k)") + "|" + vo("$P2 * 2") + "|" + vo("boolean($P1)") + "|" + vo("1 div $P2"));
         // a lazily evaluated global variable whose body aborts the transformation when the parameter P1 is 'abort'
         if (on("gate")) perNode += "<xsl:if test=\"count(preceding::*) mod 3 = 1\">" + o("gate", vo("$GATE")) + "</xsl:if>";
         if (on("num-gate")) perNode += o("num-gate", "<xsl:number level=\"any\" count=\"*[not(@zz) or $GATE = 'x']\"/>|<xsl:number level=\"single\" count=\"*[@k or $GATE = 'x']\"/>");
@@ -446,6 +446,9 @@ struct SSGen {
         // an attribute replaces the one with the same expanded name, whatever the prefixes (XSLT 7.1.3)
         if (on("attr-expanded")) { perNode += "<xsl:if test=\"not(ancestor::*)\"><o f=\"attr-expanded\" n=\"{@id}\"><c><xsl:attribute name=\"za:a\" namespace=\"urn:x-zq\">1</xsl:attribute><xsl:attribute name=\"zb:a\" namespace=\"urn:x-zq\">2</xsl:attribute><xsl:attribute name=\"zb:b\" namespace=\"urn:x-zq\">3</xsl:attribute><xsl:attribute name=\"a\">4</xsl:attribute></c><d xmlns:zc=\"urn:x-zq\" zc:a=\"1\"><xsl:attribute name=\"zd:a\" namespace=\"urn:x-zq\">2</xsl:attribute><xsl:attribute name=\"zd:a\" namespace=\"urn:x-zr\">5</xsl:attribute></d></o></xsl:if>";
             out.expect.emplace_back("attr-expanded", "E{|c|^a=4;urn:x-zq^a=2;urn:x-zq^b=3;|}E{|d|urn:x-zq^a=2;urn:x-zr^a=5;|}"); }
+        // a prefix named in exclude-result-prefixes (p2 is) still has to be declared where an attribute of a literal result element uses it
+        if (on("excl-attr")) { perNode += "<xsl:if test=\"not(ancestor::*)\"><o f=\"excl-attr\" n=\"{@id}\"><c p2:x=\"1\" p1:y=\"2\"/><d p2:x=\"1\" xml:lang=\"en\"/><g p2:x=\"1\" plain=\"3\"/></o></xsl:if>";
+            out.expect.emplace_back("excl-attr", "E{|c|urn:x-ns1^y=2;urn:x-ns2^x=1;|}E{|d|http://www.w3.org/XML/1998/namespace^lang=en;urn:x-ns2^x=1;|}E{|g|^plain=3;urn:x-ns2^x=1;|}"); }
         if (on("copy-ns-attr")) { perNode += "<xsl:if test=\"not(ancestor::*)\"><xsl:variable name=\"cna\"><e xmlns:zq=\"urn:x-zq\" zq:a=\"1\" b=\"2\"/></xsl:variable><o f=\"copy-ns-attr\" n=\"{@id}\"><c><xsl:copy-of xmlns:zq=\"urn:x-zq\" select=\"exsl:node-set($cna)/e/@zq:a\"/></c><d><xsl:for-each xmlns:zq=\"urn:x-zq\" select=\"exsl:node-set($cna)/e/@*\"><xsl:copy/></xsl:for-each></d><g xmlns:zq=\"urn:x-zother\" zq:k=\"0\"><xsl:copy-of xmlns:zq=\"urn:x-zq\" select=\"exsl:node-set($cna)/e/@zq:a\"/></g><h><xsl:attribute name=\"zq:a\" namespace=\"urn:x-zother\">0</xsl:attribute><xsl:for-each xmlns:zq=\"urn:x-zq\" select=\"exsl:node-set($cna)/e/@zq:a\"><xsl:copy/></xsl:for-each></h></o></xsl:if>";
             out.expect.emplace_back("copy-ns-attr", "E{|c|urn:x-zq^a=1;|}E{|d|^b=2;urn:x-zq^a=1;|}E{|g|urn:x-zother^k=0;urn:x-zq^a=1;|}E{|h|urn:x-zother^a=0;urn:x-zq^a=1;|}"); }   /* the prefix of the copied attribute is undeclared (c, d) or bound to another namespace (g, h) where it lands */
         // many result tree fragments alive at the same time (arena blocks of the fragment allocators hold 10)
